@@ -16,10 +16,13 @@ def read_files(kind, directory, opts):
     """reads one file set with the reader `kind` and returns plain lists (also used in-process by checks that do not vary the host TZ)"""
     out = {}
     restore = None
+    restore_cfg = None
     try:
         if opts.get("dask_chunk_size"):
             import dask
+            prev = dask.config.get("array.chunk-size")
             dask.config.set({"array.chunk-size": opts["dask_chunk_size"]})
+            restore_cfg = prev
         if kind == "silixa-pair":
             import dask
             import xarray as xr
@@ -36,6 +39,11 @@ def read_files(kind, directory, opts):
                                       timezone_input_files=opts.get("timezone_input_files", "UTC"))
         elif kind == "silixa":
             from dtscalibration import read_silixa_files
+            if opts.get("listing") == "reversed":   # the directory listing handed to the reader in reverse name order
+                import pathlib
+                orig_glob = pathlib.Path.glob
+                restore = (pathlib.Path, orig_glob)
+                pathlib.Path.glob = lambda self, pat: iter(sorted(orig_glob(self, pat), reverse=True))
             ds = read_silixa_files(directory=directory, silent=True, load_in_memory=opts.get("load_in_memory", True), timezone_netcdf=opts.get("timezone_netcdf", "UTC"))
         elif kind == "sensortran":
             from dtscalibration import read_sensortran_files
@@ -68,11 +76,22 @@ def read_files(kind, directory, opts):
         out = {"error": f"{type(ex).__name__}: {str(ex)[:200]}"}
     finally:
         if restore:
-            restore[0].glob = restore[1]
+            setattr(restore[0], "glob", restore[1])
+        if restore_cfg is not None:
+            import dask
+            dask.config.set({"array.chunk-size": restore_cfg})
     return out
 
 
 def main():
+    if sys.argv[1] == "serve":   # one long-lived process per host time zone: a job per input line, a JSON line per result
+        for line in sys.stdin:
+            line = line.strip()
+            if not line:
+                continue
+            kind, directory, opts = json.loads(line)
+            print("JSON:" + json.dumps(read_files(kind, directory, opts)), flush=True)
+        return
     kind, directory = sys.argv[1], sys.argv[2]
     opts = json.loads(sys.argv[3]) if len(sys.argv) > 3 else {}
     print("JSON:" + json.dumps(read_files(kind, directory, opts)))
